@@ -28,4 +28,13 @@ PART = {
     level_note="Lean kernel; harness; models of the components tied separately (C09-C14)",
     technique="Lean 4 proof over an exact control model of the writer, generic in its byte-level components; byte-for-byte differential tie of whole files",
   ),
+  "C13": dict(
+    imports=["Carquet.Properties.C13.Written"],
+    obligations=["Carquet.Properties.C13.C13_written_pageheader_is_standard",
+                 "Carquet.Properties.C13.C13_written_pageheader_roundtrip",
+                 "Carquet.Properties.C13.C13_written_footer_roundtrip"],
+    components=["file"],
+    fidelity={"Impl.FileReal.pageHeader (inline header writer of page_writer.c)": "exact (whole files byte-equal)"},
+    rule="file: see C05 (the page headers and footers of every generated file are compared byte for byte with the model)",
+  ),
 }
